@@ -6,10 +6,10 @@ PROP = {
     "level": "proof",
     "needs_cli": True,
     "trusted_base": TB_COMMON + [
-        "DeferLang abstracts a Capy function body to events, defers, (labelled) blocks, loops, ifs, break/return, continue and .try; every runtime condition is a decision drawn from an oracle, so one theorem covers every path; expressions inside defers are atomic events (a defer whose expression itself contains blocks/defers is compiled by the same mechanism recursively and is exercised only by the repo's own test `defers_within_defers`)",
-        "the model of the code generator (compileStmt/compileStmts: static defer stack, exit code of a block, inline defers before a jump, loop frame) is hand-transcribed from Expr::Block / Expr::While / Stmt::Break / Stmt::Continue / Expr::Propagate / run_defers_up_to in codegen/src/compiler/functions.rs and tied to it end to end: generated programs are built by the real CLI, run, and their printed traces compared with runCompiled",
+        "DeferLang abstracts a Capy function body to events, `defer { body }`, (labelled) blocks, loops, ifs, break/return, continue and .try; every runtime condition is a decision drawn from an oracle, so one theorem covers every path; a deferred expression is a block of the same language (events, nested labelled blocks/loops, if, nested defers, break/continue to labels inside the body) — other deferred expressions (calls with arguments that capture variables, allocation) are abstracted to their print events",
+        "the model of the code generator (compileStmt/compileStmts/compileDeferred: static defer stack of deferred bodies, each body re-compiled at every emission site under the stack current there — the popped stack at a block's exit, the stack that still holds the frame being unwound in run_defers_up_to —, exit code of a block, inline defers before a jump, loop frame) is hand-transcribed from Expr::Block / Expr::While / Stmt::Break / Stmt::Continue / Expr::Propagate / run_defers_up_to in codegen/src/compiler/functions.rs and tied to it end to end: generated programs are built by the real CLI, run, and their printed traces compared with runCompiled",
         "Cranelift control flow (jump/brif/block params), gcc/ld, core.println",
-        "HIR label resolution guarantees wellScoped (continue only targets loops; break/return/.try target an enclosing construct) for accepted programs — the generator only produces such programs; cont_scoping_needed shows the hypothesis is necessary",
+        "HIR label resolution guarantees wellScoped (continue only targets loops; break/return/.try target an enclosing construct; no jump leaves a defer: resolve_last_label/resolve_first_label reject a label found beyond ScopeKind::Defer) for accepted programs — the generator only produces such programs; cont_scoping_needed shows the hypothesis is necessary",
     ],
     "assumptions": [
         "programs are accepted by the front end (hence well-scoped)",
@@ -19,6 +19,6 @@ PROP = {
 
 # (category, text, design_ref, technique)
 LEVEL = ("proof",
-         "gen_trace_eq_spec: for every DeferLang program, every decision sequence and every iteration bound, the trace printed by the model of the generated code (static defer stack; a block's exit code runs its defers on fall-through; a jump runs, inline, the defers registered so far in every frame down to and including its target, then jumps past the exit code; loops own an empty frame) equals the structural semantics of the property (leaving a construct by any exit runs the defers registered in it so far, newest first, inner before outer, nothing else) — proved in Lean by mutual structural recursion with a 'debt' invariant, plus corollaries in the property's words and theorems that the pre-fix scheme was wrong. The pinned tree violated the property (break out of a loop ran outer defers early and twice; continue skipped defers; an early break/return ran unreached defers): repaired by a `fix:` commit in /repo. Each run builds 64 (thorough 600) generated programs x 6 decision sequences with the real CLI and compares the executables' traces with the model and with an independent Rust re-statement of the semantics.",
+         "gen_trace_eq_spec: for every well-scoped DeferLang program (defers hold arbitrary bodies: loops, labelled blocks, if, inner break/continue, nested defers), every decision sequence and every iteration bound, the trace printed by the model of the generated code (static defer stack; a block's exit code compiles and runs its deferred bodies on fall-through; a jump compiles, inline, under the stack current at the jump, the deferred bodies registered so far in every frame down to and including its target, then jumps past the exit code; loops own an empty frame) equals the structural semantics of the property (leaving a construct by any exit runs the deferred bodies registered in that activation so far, newest first, each once, each as a block activation of its own, inner before outer, nothing else) — proved in Lean by mutual structural recursion with a 'debt' invariant, abstracted over the function that compiles a deferred body and closed by induction on the re-entry depth, plus corollaries in the property's words and theorems that the pre-fix scheme was wrong. The pinned tree violated the property (break out of a loop ran outer defers early and twice; continue skipped defers; an early break/return ran unreached defers): repaired by a `fix:` commit in /repo. Each run builds 64 (thorough 600) generated programs x 6 decision sequences with the real CLI and compares the executables' traces with the model and with an independent Rust re-statement of the semantics.",
          "§4 C03",
          "Lean 4 proof (simulation between generated control flow and structural semantics) + end-to-end translation validation on generated programs")
